@@ -144,6 +144,24 @@ def mapLoop (q : Query) : List (Except IOErr Fact) → Except IOErr (List Fact)
 
 def opMap (q : Query) (s : MStore) : Except IOErr (List Fact) := mapLoop q (factQuery q.keys s)
 
+/-- a `map` whose body runs another `map` (directly, or through a called action): for every fact
+the outer loop visits, the inner loop runs to its end; `qi f` is the inner literal, which may be
+bound to fields of the outer fact `f`.  Tags: 0 = visited by the outer map, 1 = by the inner. -/
+def nestLoop (qi : Fact → Query) (si : MStore) : List Fact → Except IOErr (List (Nat × Fact))
+  | [] => .ok []
+  | f :: rest =>
+    match opMap (qi f) si with
+    | .error e => .error e
+    | .ok gs =>
+      match nestLoop qi si rest with
+      | .error e => .error e
+      | .ok r => .ok ((0, f) :: (gs.map fun g => (1, g)) ++ r)
+
+def opMapNested (qo : Query) (qi : Fact → Query) (so si : MStore) : Except IOErr (List (Nat × Fact)) :=
+  match opMap qo so with
+  | .error e => .error e
+  | .ok fs => nestLoop qi si fs
+
 /-- `Instruction::Create` → `fact_insert` -/
 def opCreate (f : Fact) (s : MStore) : MStore := mInsert (serKeys f.keys) f.vals s
 
